@@ -22,6 +22,8 @@ CHECKS = {
          'sampled; operation handlers are scripted stubs; a Future is only required to complete if its final report was delivered', '6 (C09)'),
  'C10': ('exploration', 'seeded search over sequences of SetContextState calls (through the real consumer/provider stack and SCO worker) and set_location calls (also concurrent) x schedules; association invariants evaluated inside the commit critical section on consecutive history entries',
          'sampled; uses the tutorial context role provider (the anchored implementation); explicit non-associated proposals keep their value', '6 (C10)'),
+ 'C20': ('exploration', 'seeded histories of provider transactions and text-store additions through the simulated stack, queries on the quiescent provider compared with a reference selection written from the BICEPS rules (history half of the technique only: no fault or schedule dimension, the concurrent case is C07)',
+         'sampled histories and handle / filter lists; for size constraints only soundness of the returned texts is demanded', '6 (C20)'),
 }
 TECH = 'deterministic simulation with fault injection (seeded scheduler + virtual clock + simulated network, fork per run, ddmin replay)'
 
